@@ -222,7 +222,7 @@ def has_escaped(t):
 
 
 class Oblig:
-    __slots__ = ("key", "kind", "fn", "where", "status", "detail", "ctx", "float_dep", "input_dep")
+    __slots__ = ("key", "kind", "fn", "where", "status", "detail", "ctx", "float_dep", "input_dep", "sig")
 
 
 class Engine:
@@ -941,6 +941,34 @@ class FnCtx:
                 else:
                     out.append(({la: -1}, 1))
             return out
+        if d[0] == "discr" and d[1][0] == "call" and isinstance(d[1][1], str) and d[1][1].endswith("::next") and vals == [1] and not other:
+            # Some(item) came out of a forward iterator over a vector / slice: the collection is not empty, and an
+            # enumerate() index is smaller than its length
+            from .query import iter_source
+            nx = d[1]
+            src = iter_source(self.ft, nx[2][0]) if nx[2] else None
+            views = []
+            x = src
+            while x is not None:
+                while x[0] in ("ref", "deref"):
+                    x = x[2] if x[0] == "ref" else x[1]
+                if x[0] == "call" and isinstance(x[1], str) and x[2] and x[1].split("::")[-1] in ("into_iter", "iter", "iter_mut", "enumerate", "copied", "cloned"):
+                    views.append(x[1].split("::")[-1])
+                    x = x[2][0]
+                    continue
+                break
+            if x is not None and views and (self.ft.tyof(x) or "").lstrip("&").replace("mut ", "").strip().startswith(("[", "std::vec::Vec<", "alloc::vec::Vec<")):
+                la = self.len_atom(("ref", False, x, None) if x[0] not in ("ref",) and not (self.ft.tyof(x) or "").startswith("&") else x, sb)
+                if la is not None:
+                    out.append(({la: -1}, 1))                                   # 1 <= len
+                    if views and views[0] == "enumerate" and "enumerate" not in views[1:]:
+                        idx = ("field", ("payload", "Some", nx), 0)
+                        li = self.linear(idx, sb)
+                        if li is not None:
+                            co = dict(li[0])
+                            co[la] = co.get(la, 0) - 1
+                            out.append((co, li[1] + 1))                         # idx + 1 <= len
+            return out
         if d[0] == "un" and d[1] == "Not" and truth is not None:
             # Not(x) true  <=> x == 0 ; Not(x) false <=> x != 0
             if truth:
@@ -1173,6 +1201,10 @@ class FnCtx:
             k = self.root_key(t[2])
             if isinstance(k, tuple):
                 return ("L",) + k
+            if k is not None and at is not None:
+                # a slice borrowed from a local vector: while the borrow is live the vector cannot change, so the
+                # slice's length is the vector's length as seen where the slice is used
+                return self.len_atom(t[2], at)
         return None
 
     # ------------------------------------------------------------------ abstract evaluation
